@@ -9,6 +9,7 @@ f7_0:
   call f8_0
   call f1_0
   lea d_f7_0(%rip),%rax
+  mov wvsv1(%rip),%rax
   ret
 .section .data.d_f7_0,"aw",@progbits
 .globl d_f7_0
